@@ -352,6 +352,139 @@ def pacer_trace(out, tier, seed):
                        "expected": m["expected"], "observed": m["observed"], "panic": m.get("panic")})
 
 
+# ---- stage SysTask: the system task's source life cycle (spec/SysTask.tla) ----------------------
+SYS_TEST = "daemon::system::verif_hook::verif_systask"
+SYS_CFGS = {  # Gen configuration suffix -> constants the harness needs
+    "Life": dict(MaxId=2, NSp=2), "Pub": dict(MaxId=2, NSp=1),
+    "LifeT": dict(MaxId=3, NSp=2), "PubT": dict(MaxId=3, NSp=1),
+}
+
+
+def sys_act_sig(a):
+    t = a["t"]
+    if t == "Create":
+        return "Create[sp=%s,%s]" % (a["sp"], a["kind"])
+    if t == "Msg":
+        return "Msg[%s,%s]" % (a["k"], a["id"])
+    if t == "Exit":
+        return "Exit[%s]" % a["id"]
+    if t == "Use":
+        return "Use%s" % a["u"]
+    return t
+
+
+def sys_stale(rec):
+    """a tick after which the published reference is a source that is no longer in the table"""
+    p = rec["post"]
+    return rec["act"]["t"] == "Tick" and p["pub"]["k"] == "Ntp" and p["owner"][p["pub"]["id"] - 1] == 0
+
+
+def systask_replay(out, seed, name):
+    """(M)+(G) for MC_SysTask/<name>: TLC checks SYS1..SYS5 on the bounded model; EVERY transition is replayed on a real
+    SystemTask.  A difference in C36's cone (the reason delivered to the owning spawner) is a C36 violation; any other
+    difference is a divergence note attributed to SYS."""
+    cfg = "Gen_SysTask_%s.cfg" % name
+    label = "SysTask:%s" % name
+    g, mc, inits = vf.collect_graph("MC_SysTask", cfg, workers=8, timeout=1500)
+    if mc.violated:
+        raise vf.ToolError("model MC_SysTask/%s violates %s at design level:\n%s" % (cfg, mc.violated, mc.error_trace[:3000]))
+    if not inits or not g.edges:
+        raise vf.ToolError("generator printed nothing (%s)" % cfg)
+    out.add("states", mc.distinct)
+    out.add("transitions", mc.generated)
+    out.add("systask_states", mc.distinct)
+    out.add("systask_transitions", mc.generated)
+    vac = {"removal with reason %s delivered to the owner" % r: (lambda rec, r=r: rec["out"]["reason"] == r)
+           for r in (("Unreachable",) if name.startswith("Pub") else ("NetworkIssue", "Unreachable", "Demobilized"))}
+    vac["announcement of a created source"] = lambda rec: rec["act"]["t"] == "Create" and len(rec["out"]["evs"]) == 1
+    vac["removal while another source stays in the table"] = lambda rec: rec["act"]["t"] == "Msg" and any(rec["post"]["owner"])
+    if name.startswith("Life"):
+        vac["removal message for an id that is not in the table (panic branch)"] = lambda rec: rec["out"]["panic"]
+        vac["source of a spawner unknown to the system"] = lambda rec: rec["act"]["t"] == "Msg" and not rec["out"]["panic"] and not rec["out"]["evs"]
+        vac["source task exit"] = lambda rec: rec["act"]["t"] == "Exit"
+    else:
+        vac["tick publishing a SOCK reference"] = lambda rec: rec["act"]["t"] == "Tick" and rec["post"]["pub"]["k"] == "Sock"
+        vac["tick that keeps the stale reference of a removed source"] = sys_stale
+        vac["tick that replaces the reference"] = lambda rec: rec["act"]["t"] == "Tick" and rec["post"]["pub"] != rec["pre"]["pub"]
+    for what, pred in vac.items():
+        if not any(pred(e[2]) for e in g.edges):
+            raise vf.ToolError("vacuous model run (%s): %s never happens" % (cfg, what))
+    wanted = set(i for i, e in enumerate(g.edges) if e[2]["cones"].get("C36"))
+    if not wanted:
+        raise vf.ToolError("vacuous: no transition of %s is constrained by C36" % cfg)
+    rng = random.Random(seed)
+    walks = g.tours(inits[0], max_len=40, rng=rng)
+    rows = walk_rows(g, walks)
+    wd = vf.workdir(label.replace(":", "_"))
+    hcfg = dict(SYS_CFGS[name], settle=40)
+    res = replay_walks("ntpd", SYS_TEST, hcfg, rows, wd, "C36", seed)
+    confirmed, steps, noted = set(), 0, {}
+    for n, w in enumerate(walks):
+        r = res[n]
+        steps += r["steps_run"]
+        f = r["fail"]
+        confirmed.update(w[:(r["steps_run"] if f is None else f["step"])])
+        if f is None:
+            continue
+        rec = g.edges[w[f["step"]]][2]
+        fields = set(f["fields"])
+        cone = set(rec["cones"].get("C36", []))
+        detail = {"how": "replay", "cfg": cfg, "history": [g.edges[x][2]["act"] for x in w[:f["step"] + 1]],
+                  "expected": {"post": rec["post"], "out": rec["out"]}, "observed": f.get("observed"),
+                  "panic": f.get("panic"), "differing": sorted(fields),
+                  "attributed_to": ["C36"] if fields & cone else ["SYS"]}
+        if fields & cone:
+            out.violation("%s:%s:%s" % (label, sys_act_sig(rec["act"]), ",".join(sorted(fields & cone))), detail)
+        else:
+            out.divergences.append(detail)
+            k = (sys_act_sig(rec["act"]).split("[")[0], tuple(sorted(fields)))
+            if k not in noted:
+                noted[k] = [0, detail["history"]]
+            noted[k][0] += 1
+    for (what, fields), (cnt, hist) in sorted(noted.items()):
+        out.notes.append("divergence outside C36's cone, attributed to SYS (%s: %d walks stop at a %s step, fields %s, e.g. history %s)" % (
+            label, cnt, what, list(fields), " ".join(sys_act_sig(a) for a in hist)))
+    missing = [i for i in range(len(g.edges)) if i not in confirmed]
+    if missing and not out.violations and not out.divergences:
+        raise vf.ToolError("%s: %d transitions were not replayed" % (label, len(missing)))
+    out.add("replayed_steps", steps)
+    out.add("replayed_walks", len(walks))
+    out.add("model_transitions_constrained_by_property", len(wanted))
+    out.add("model_transitions_confirmed_on_impl", len(confirmed & wanted))
+    out.add("systask_steps_replayed", steps)
+    out.add("systask_transitions_confirmed_on_impl", len(confirmed))
+    out.add("systask_panic_transitions_confirmed", len([i for i in confirmed if g.edges[i][2]["out"]["panic"]]))
+    stale = [i for i in confirmed if sys_stale(g.edges[i][2])]
+    out.add("systask_stale_reference_ticks_confirmed", len(stale))
+    if walks:
+        w = max(walks, key=lambda w: sum(1 for e in w if e in wanted))[:8]
+        out.sample({"model": label, "walk_prefix": [sys_act_sig(g.edges[e][2]["act"]) for e in w],
+                    "expected_after_last": {k: g.edges[w[-1]][2]["post"][k] for k in ("owner", "kind", "reg", "rem", "snaps", "pub")},
+                    "expected_out": g.edges[w[-1]][2]["out"]})
+    return g, confirmed
+
+
+def systask_stage(out, tier, seed):
+    out.coverage["rule"] = out.coverage.get("rule", "") + (
+        "; every transition of the bounded SysTask models (source life cycle of the system task: creations by two registered spawners "
+        "and an unknown one, all removal messages incl. messages for ids not in the table, source exits, controller selections, "
+        "timer ticks) is replayed on a real SystemTask::run; only the reason delivered to the owning spawner is in C36's cone")
+    out.assumptions += ["SysTask: removal messages are injected on the real msg_for_system channel in the name of the source task (the real "
+                        "SourceTask is running but parked: poll interval 2^17 s); its last act (removing its snapshot entry) is done by the driver",
+                        "SysTask: scripted clock controller (the real one selects sources from measurements); one event is handled to "
+                        "quiescence before the next is sent (events of different sources commute on everything observed)"]
+    for name in (("Life", "Pub") if tier == "quick" else ("LifeT", "PubT")):
+        systask_replay(out, seed, name)
+    # the intended form of SYS5 does not hold for the code as written: TLC must still find the documented counterexample
+    res = vf.run_tlc("MC_SysTask", "CE_SysTask_Stale.cfg", workers=1, timeout=600, coverage=False, tags=())
+    if "SYS5_IntendedInv" not in str(res.violated):
+        raise vf.ToolError("CE_SysTask_Stale: the documented counterexample of SYS5_Intended was not found (%s)" % res.violated)
+    trace = tlc_trace_json(res)
+    out.notes.append("SYS5 (as coded, not a C36 matter): after a used source has been removed the timer loop keeps publishing its "
+                     "reference until the controller reports another selection; TLC counterexample of the intended invariant has "
+                     "%d states; the stale ticks of the bounded model were confirmed on the real SystemTask" % len(trace))
+
+
 def run_c36(out, tier, seed):
     out.coverage["rule"] = ("every transition of the bounded Pacer model (spawner_task around a scripted spawner, W = 4 ticks) is replayed "
                             "on the real task on the paused tokio clock; every transition of the Standard model on the real "
@@ -372,6 +505,7 @@ def run_c36(out, tier, seed):
                             "re-resolution": lambda r: r["pre"]["lastReason"] == "Unreachable" and bool(r["out"]["creates"]),
                             "address reuse": lambda r: r["pre"]["lastReason"] == "NetworkIssue" and bool(r["out"]["creates"])})
     pacer_trace(out, tier, seed)
+    systask_stage(out, tier, seed)
 
 
 PROPS.append("C36")
@@ -387,6 +521,12 @@ MANIFEST["C36"] = dict(
          "and reuses its address after NetworkIssue.",
     note="discrete time (250 ms ticks in the bounded model, 50 ms in recorded sessions); events only on tick boundaries and never racing a "
          "timer at the same instant; scripted spawner handlers take no time; NTS spawner not exercised")
+
+MANIFEST["C36"]["technique"] += ("; TLA+ model of the system task's source life cycle (spec/SysTask.tla: source table, events delivered "
+                                 "to spawners, removal reasons, published snapshot) model-checked with TLC (SYS1..SYS5) and every transition "
+                                 "replayed on a real SystemTask::run with scripted spawners and controller")
+MANIFEST["C36"]["note"] += ("; SysTask stage: removal messages injected in the name of (parked) real source tasks; only the reason delivered to "
+                            "the owning spawner is attributed to C36, other differences are notes attributed to SYS")
 
 
 # --------------------------------------------------------------------------------------------
